@@ -96,7 +96,11 @@ pub fn judge(c: &Pair, st: &mut Stats) -> Verdict {
     // which parsers accept x at all?
     let a1 = matches!(imp::v1_bytes(x), Ok(Ok(_)));
     let a2 = matches!(imp::v2_parse(x), Ok(Ok(_)));
-    if !a1 && !a2 {
+    // the text routes (try_from(&str) and both FromStr impls) are parsers of their own: one of them may accept what the byte route rejects
+    let a3 = std::str::from_utf8(x).ok().map_or(false, |sx| {
+        matches!(imp::v1_str(sx), Ok(Ok(_))) || matches!(imp::v1_fromstr_header(sx), Ok(Ok(_))) || matches!(imp::v1_fromstr_addr(sx), Ok(Ok(_)))
+    });
+    if !a1 && !a2 && !a3 {
         // a candidate the reference calls valid but the parser rejects is C01/C02's to report
         if matches!(v1_ref(x), V1Ref::Accept { .. }) || matches!(v2_ref(x), V2Ref::Accept { .. }) {
             st.discard();
@@ -109,7 +113,7 @@ pub fn judge(c: &Pair, st: &mut Stats) -> Verdict {
     if !t.is_empty() {
         st.nontrivial(c.digest());
     }
-    st.sample(if a1 { "v1" } else { "v2" }, || format!("x={:?} t={:?}", esc(&x[..x.len().min(120)]), esc(t)));
+    st.sample(if a2 { "v2" } else { "v1" }, || format!("x={:?} t={:?}", esc(&x[..x.len().min(120)]), esc(t)));
 
     check_parser(
         "v1::try_from(&[u8])",
@@ -138,6 +142,33 @@ pub fn judge(c: &Pair, st: &mut Stats) -> Verdict {
         },
         &|r: &Result<(Vec<u8>, ppp::v1::Addresses), String>| r.as_ref().ok().map(|(h, _)| h.clone()),
         &v1_len,
+        &|i| shape(i),
+        st,
+    )?;
+    check_parser(
+        "str::parse::<v1::Header>",
+        x,
+        t,
+        &|i| {
+            let s = std::str::from_utf8(i).ok()?;
+            Some(imp::v1_fromstr_header(s).map(|r| r.map(|h| (h.header.as_bytes().to_vec(), h.addresses)).map_err(|e| format!("{:?}", e))))
+        },
+        &|r: &Result<(Vec<u8>, ppp::v1::Addresses), String>| r.as_ref().ok().map(|(h, _)| h.clone()),
+        &v1_len,
+        &|i| shape(i),
+        st,
+    )?;
+    // parse::<Addresses> reports no header text: the line through its CRLF (the whole input when there is no CR) stands in for it
+    check_parser(
+        "str::parse::<v1::Addresses>",
+        x,
+        t,
+        &|i| {
+            let s = std::str::from_utf8(i).ok()?;
+            Some(imp::v1_fromstr_addr(s).map(|r| r.map(|a| (i[..v1_len(i).unwrap_or(i.len()).min(i.len())].to_vec(), a)).map_err(|e| format!("{:?}", e))))
+        },
+        &|r: &Result<(Vec<u8>, ppp::v1::Addresses), String>| r.as_ref().ok().map(|(h, _)| h.clone()),
+        &|_| None,
         &|i| shape(i),
         st,
     )?;
